@@ -350,3 +350,61 @@ pub mod __internal__ {
         response::{ResponseHeader, ResponseHeaders},
     };
 }
+
+#[cfg(ohkami_verif)]
+#[cfg(all(feature="__rt_native__", feature="rt_tokio"))]
+#[doc(hidden)]
+/// verification hooks (H1: routing re-export, H2: I/O wrappers); compiled only with `--cfg ohkami_verif`
+pub mod __verif__ {
+    pub use crate::ohkami::routing::{HandlerSet, ByAnother, Dir, Routing};
+
+    use std::{pin::Pin, sync::Arc};
+    use crate::{Request, Response, Ohkami};
+    use crate::router::r#final::Router;
+
+    pub struct VerifRequest(Pin<Box<Request>>);
+    impl VerifRequest {
+        pub fn init(ip: std::net::IpAddr) -> Self {Self(Box::pin(Request::init(ip)))}
+        pub fn clear(&mut self) {unsafe {self.0.as_mut().get_unchecked_mut()}.clear()}
+        pub async fn read(&mut self, stream: &mut (impl tokio::io::AsyncRead + Unpin)) -> Result<Option<()>, Response> {
+            self.0.as_mut().read(stream).await
+        }
+        pub fn get(&self) -> &Request {&*self.0}
+        pub fn get_mut(&mut self) -> &mut Request {unsafe {self.0.as_mut().get_unchecked_mut()}}
+    }
+
+    #[derive(Clone)]
+    pub struct VerifRouter(Arc<Router>);
+    impl VerifRouter {
+        pub fn new(o: Ohkami) -> Self {Self(Arc::new(o.into_router().finalize().0))}
+        pub async fn handle(&self, req: &mut VerifRequest) -> Response {self.0.handle(req.get_mut()).await}
+        pub async fn session(&self, conn: tokio::net::TcpStream, ip: std::net::IpAddr) {
+            crate::session::Session::new(self.0.clone(), conn, ip).manage().await
+        }
+    }
+
+    /// returns `true` iff the response asked for a protocol upgrade
+    pub async fn send(res: Response, conn: &mut (impl tokio::io::AsyncWrite + Unpin)) -> bool {
+        !res.send(conn).await.is_none()
+    }
+    pub fn declared_size(res: &Response) -> usize {res.__verif_declared_size()}
+
+    /// H6: the crate-private `Set-Cookie` parser
+    pub fn parse_setcookie(raw: &str) -> Result<crate::header::SetCookie<'_>, String> {
+        crate::header::SetCookie::from_raw(raw)
+    }
+}
+
+#[cfg(ohkami_verif)]
+#[doc(hidden)]
+/// verification hook (H5): schedule points routed to a callback the harness installs
+pub mod __verif_sched__ {
+    use std::sync::RwLock;
+    static CB: RwLock<Option<Box<dyn Fn(&'static str) + Send + Sync>>> = RwLock::new(None);
+    pub fn install(cb: Box<dyn Fn(&'static str) + Send + Sync>) {*CB.write().unwrap() = Some(cb)}
+    pub fn sched(point: &'static str) {if let Some(cb) = &*CB.read().unwrap() {cb(point)}}
+}
+#[cfg(ohkami_verif)]
+#[cfg(feature="__rt_native__")]
+#[doc(hidden)]
+pub use crate::ohkami::__verif_sync__;
